@@ -144,9 +144,16 @@ def main(argv=None):
             inconclusive.append('harness error: ' + he['traceback'][-1500:])
 
     # reach / monitor minimums ------------------------------------------------
+    soft_missing = []
     for anchor in getattr(mod, 'ANCHORS', []):
         if anchor not in reach:
-            inconclusive.append(f'anchored function never entered: {anchor}')
+            name = anchor.split(':')[1].split('.')[-1]
+            if name.startswith('_') and not name.startswith('__'):
+                # private helpers may be renamed or inlined by a refactoring that keeps the property:
+                # their absence is reported in the evidence, but only public entry points gate the verdict
+                soft_missing.append(anchor)
+            else:
+                inconclusive.append(f'anchored function never entered: {anchor}')
     for c in getattr(mod, 'REQUIRED', []):
         if counts.get(c, 0) <= 0:
             inconclusive.append(f'deciding monitor never evaluated: {c}')
@@ -195,6 +202,7 @@ def main(argv=None):
                        for k, v in sorted(dims.items())},
         'anchors_entered': sorted(x for x in reach
                                   if x in set(getattr(mod, 'ANCHORS', []))),
+        'private_anchors_not_entered': soft_missing,
         'darr_functions_entered': len(reach),
         'known_findings_hit': known_hit,
         'unlisted_violation_mechanisms':
